@@ -76,11 +76,16 @@ def run_impl(case):
         elif via == 'env':
             if allow: os.environ['OF_SAFE_METRICS'] = case.get('envtext') or ','.join(allow)
             al = ofcfg.read_allowlist()
-        else:
+        else:       # 'file' | 'both' (file and OF_SAFE_METRICS set: the file wins) | 'nokey' (file without the safe_metrics key) | 'badfile' (unreadable: falls through to the env)
             tmp = tempfile.NamedTemporaryFile('w', suffix='.yaml', delete=False)
-            tmp.write('safe_metrics:\n' + ''.join(f'  - {json.dumps(a)}\n' for a in allow) if allow else 'safe_metrics: []\n'); tmp.close()
+            if via == 'nokey': tmp.write('openlineage:\n  url: http://x\n')
+            elif via == 'badfile': tmp.write('safe_metrics: [unclosed\n')
+            else: tmp.write('safe_metrics:\n' + ''.join(f'  - {json.dumps(a)}\n' for a in allow) if allow else 'safe_metrics: []\n')
+            tmp.close()
             os.environ['OF_SAFE_METRICS_FILE'] = tmp.name
-            al = ofcfg.read_allowlist()
+            if case.get('envtext'): os.environ['OF_SAFE_METRICS'] = case['envtext']
+            import contextlib, io
+            with contextlib.redirect_stdout(io.StringIO()): al = ofcfg.read_allowlist()
         if case.get('raw'): os.environ['OPENLINEAGE_EXPORT_RAW_DATA'] = 'true'; cap._last_frame_data = {'x': 1}
         exp = OTelLineageExporter(cap, allowlist=al)
         exp.export(mk_metricsdata(case))
@@ -96,8 +101,9 @@ def run_impl(case):
 def oracle(case, impl):
     """The property's statement evaluated on the implementation's output, independently of the model."""
     allow = case['allow']
-    if case.get('via') == 'env' and allow is not None and case.get('envtext'):
+    if case.get('via') in ('env', 'badfile') and allow is not None and case.get('envtext'):
         allow = [a.strip() for a in case['envtext'].split(',') if a.strip()]
+    if case.get('via') == 'nokey': allow = []          # a readable file without the key: lock-down, whatever the environment says
     facet = impl['facet']
     out = []
     if facet == 'multiple-calls': return [('multiple-calls', 'backend called more than once')]
@@ -143,6 +149,14 @@ def gen_case(rng):
         if any(',' in a or a != a.strip() or not a for a in allow): case['via'] = 'ctor'
         else: case['envtext'] = (' , '.join(allow) + rng.choice(['', ',', ' , ,'])) if rng.random() < 0.5 else ','.join(allow)
     if via == 'file' and allow and any(a == '' for a in allow): case['via'] = 'ctor'
+    if case['via'] == 'file' and rng.random() < 0.5:
+        # OF_SAFE_METRICS is set as well (inherited from a compose / .env file): the documented precedence is the file
+        other = rng.sample([x for x in NAMES[:-1] + PATS if x and ',' not in x and x == x.strip()], rng.randint(1, 3))
+        case['envtext'] = ','.join(other)
+        r = rng.random()
+        case['via'] = 'both' if r < 0.7 else 'nokey' if r < 0.85 else 'badfile'
+        if case['via'] == 'nokey': case['allow'] = []
+        if case['via'] == 'badfile': case['allow'] = other
     return case
 
 
@@ -210,13 +224,19 @@ def run(ctx):
             allow = c['allow']
             if c.get('via') == 'env' and c.get('envtext'):
                 allow = ctx.driver.one({'op': 'c16.readenv', 'env': c['envtext']})['r'] if False else None
-            reqs.append({'op': 'c16.export', 'allow': c['allow'], 'metrics': c['metrics'], 'raw': bool(c.get('raw')), '_env': c.get('envtext') if c.get('via') == 'env' else None})
-        # env-text cases: the model parses the text itself
-        envreq = [{'op': 'c16.readenv', 'env': r['_env']} for r in reqs if r['_env']]
+            via = c.get('via')
+            rd = None
+            if via == 'env' and c.get('envtext'): rd = {'op': 'c16.readenv', 'env': c['envtext']}
+            elif via == 'both': rd = {'op': 'c16.readallow', 'file': c['allow'], 'env': c.get('envtext')}
+            elif via == 'nokey': rd = {'op': 'c16.readallow', 'file': [], 'env': c.get('envtext')}
+            elif via == 'badfile': rd = {'op': 'c16.readallow', 'file': None, 'env': c.get('envtext')}
+            reqs.append({'op': 'c16.export', 'allow': c['allow'], 'metrics': c['metrics'], 'raw': bool(c.get('raw')), '_rd': rd})
+        # env-text / file cases: the model reads the configuration itself (readAllowEnv / readAllowlist)
+        envreq = [r['_rd'] for r in reqs if r['_rd']]
         envres = iter(ctx.driver.batch(envreq))
         for r in reqs:
-            if r['_env']: r['allow'] = next(envres)['r']
-            del r['_env']
+            if r['_rd']: r['allow'] = next(envres)['r']
+            del r['_rd']
         model = ctx.driver.batch(reqs)
     for i, (c, o) in enumerate(zip(cases, impl)):
         viol = oracle(c, o)
